@@ -5764,6 +5764,8 @@ def merge_parts(parts, reassign="voice"):
 def _fill_rests_within_measure(measure: Measure, part: Part) -> None:
     start_time = measure.start.t
     end_time = measure.end.t
+    # divisions per quarter in force in this measure
+    quarter = measure.start.quarter
     notes = np.array(
         list(part.iter_all(GenericNote, start_time, end_time, include_subclasses=True))
     )
@@ -5782,14 +5784,14 @@ def _fill_rests_within_measure(measure: Measure, part: Part) -> None:
                 # solution when estimation returns composite durations.
                 sym_dur = estimate_symbolic_duration(
                     end_time - start_time,
-                    part._quarter_durations[0],
+                    quarter,
                     return_com_durations=True,
                 )
                 if isinstance(sym_dur, tuple):
                     st = start_time
                     for i, sd in enumerate(sym_dur):
                         et = st + symbolic_to_numeric_duration(
-                            sd, part._quarter_durations[0]
+                            sd, quarter
                         )
                         rest = Rest(
                             symbolic_duration=sd, staff=staff, voice=un_voice.max() + 1
@@ -5814,7 +5816,7 @@ def _fill_rests_within_measure(measure: Measure, part: Part) -> None:
         if min_start_note.start.t > start_time:
             sym_dur = estimate_symbolic_duration(
                 min_start_note.start.t - start_time,
-                part._quarter_durations[0],
+                quarter,
                 return_com_durations=True,
             )
             # solution when estimation returns composite durations.
@@ -5822,7 +5824,7 @@ def _fill_rests_within_measure(measure: Measure, part: Part) -> None:
                 st = start_time
                 for i, sd in enumerate(sym_dur):
                     et = st + symbolic_to_numeric_duration(
-                        sd, part._quarter_durations[0]
+                        sd, quarter
                     )
                     rest = Rest(
                         symbolic_duration=sd,
@@ -5844,7 +5846,7 @@ def _fill_rests_within_measure(measure: Measure, part: Part) -> None:
         if min_end_note.end.t < end_time:
             sym_dur = estimate_symbolic_duration(
                 end_time - min_end_note.end.t,
-                part._quarter_durations[0],
+                quarter,
                 return_com_durations=True,
             )
             # solution when estimation returns composite durations.
@@ -5852,7 +5854,7 @@ def _fill_rests_within_measure(measure: Measure, part: Part) -> None:
                 st = min_end_note.end.t
                 for i, sd in enumerate(sym_dur):
                     et = st + symbolic_to_numeric_duration(
-                        sd, part._quarter_durations[0]
+                        sd, quarter
                     )
                     rest = Rest(
                         symbolic_duration=sd,
@@ -5880,14 +5882,14 @@ def _fill_rests_within_measure(measure: Measure, part: Part) -> None:
                 sym_dur = estimate_symbolic_duration(
                     notes_per_vocstaff[sort_note_start[i]].start.t
                     - notes_per_vocstaff[sort_note_end[i - 1]].end.t,
-                    part._quarter_durations[0],
+                    quarter,
                     return_com_durations=True,
                 )
                 if isinstance(sym_dur, tuple):
                     st = notes_per_vocstaff[sort_note_end[i - 1]].end.t
                     for i, sd in enumerate(sym_dur):
                         et = st + symbolic_to_numeric_duration(
-                            sd, part._quarter_durations[0]
+                            sd, quarter
                         )
                         rest = Rest(
                             symbolic_duration=sd,
@@ -5914,6 +5916,8 @@ def _fill_rests_global(
 ) -> None:
     start_time = measure.start.t
     end_time = measure.end.t
+    # divisions per quarter in force in this measure
+    quarter = measure.start.quarter
     if end_time - start_time == 0:
         return
     notes = np.array(
@@ -5930,7 +5934,7 @@ def _fill_rests_global(
         ]
         if min_start_note.start.t > start_time:
             sym_dur = estimate_symbolic_duration(
-                min_start_note.start.t - start_time, part._quarter_durations[0]
+                min_start_note.start.t - start_time, quarter
             )
             rest = Rest(
                 symbolic_duration=sym_dur,
@@ -5944,7 +5948,7 @@ def _fill_rests_global(
         ]
         if min_end_note.end.t < end_time:
             sym_dur = estimate_symbolic_duration(
-                end_time - min_end_note.end.t, part._quarter_durations[0]
+                end_time - min_end_note.end.t, quarter
             )
             rest = Rest(
                 symbolic_duration=sym_dur,
@@ -5966,7 +5970,7 @@ def _fill_rests_global(
             diff = np.setdiff1d(y_sa, x_sa)
         for voice, staff in diff:
             sym_dur = estimate_symbolic_duration(
-                end_time - start_time, part._quarter_durations[0]
+                end_time - start_time, quarter
             )
             rest = Rest(symbolic_duration=sym_dur, staff=staff, voice=voice)
             part.add(rest, start_time, end_time)
